@@ -13,7 +13,7 @@ from . import c02, c06, c10, c13, c17
 ID = "C18"
 LEAN_MODULE = "CKT.Props.C18"
 THEOREMS = ["CKT.C18." + t for t in [
-    "partition_refuses_label_count", "partition_refuses_observable_size", "partition_refuses_phase", "partition_refuses_classical_bits",
+    "partition_refuses_label_count", "partition_refuses_observable_size", "partition_refuses_phase", "partition_refuses_classical_bits", "cut_gates_refuses_classical", "cut_gates_accepts_quantum_only",
     "cut_refuses_big_gate", "cut_refuses_unsupported", "generate_refuses_budget", "budget_nan_refused", "budget_below_one_refused",
     "generate_refuses_mismatched_forms", "reconstruct_refuses_forms", "reconstruct_refuses_keys", "reconstruct_refuses_phase",
     "find_cuts_refuses_gamma", "find_cuts_refuses_width", "search_refuses_big_gate", "basis_id_out_of_range", "basis_id_in_range",
@@ -61,6 +61,10 @@ def _valid_problem(rng):
 
 def cases(rng, tier):
     N = 40 if tier == "quick" else 400
+    for fn in ("cut_gates", "find_cuts"):
+        for nregbits, nloose in ((0, 1), (2, 0), (1, 1), (0, 0), (0, 2)):
+            yield ("validate", {"what": "no_classical", "nregbits": nregbits, "nloose": nloose, "fn": fn, "measure": rng.random() < 0.5,
+                                "always_oracle": True})
     for _ in range(N):
         p = _valid_problem(rng)
         cls = rng.choice(["valid", "label_count", "obs_size", "phase", "cregs", "big_gate"])
@@ -115,8 +119,12 @@ def cases(rng, tier):
                                 "via": rng.choice(["ctor", "setter"])})
         elif r < 0.8:
             yield ("validate", {"what": "half", "basis_qubits": rng.choice([1, 2]), "qubit_id": rng.choice([0, 1, 2, 3, 7])})
-        elif r < 0.84:
+        elif r < 0.82:
             yield ("validate", {"what": "unset_basis_id", "id": rng.choice([None, None, 0, 3])})
+        elif r < 0.84:
+            # classical bits of every layout (a register, loose bits, both, none) in a circuit handed to cut_gates / find_cuts
+            yield ("validate", {"what": "no_classical", "nregbits": rng.choice([0, 0, 1, 2]), "nloose": rng.choice([0, 1, 2]),
+                                "fn": rng.choice(["cut_gates", "find_cuts"]), "measure": rng.random() < 0.5})
         elif r < 0.88:
             yield ("validate", {"what": "two_qubit_gate", "basis_qubits": rng.choice([1, 2])})
         else:
@@ -180,6 +188,8 @@ def model_line(kind, payload):
         return {"op": "c18.two_qubit_gate", "basis_qubits": payload["basis_qubits"]}
     if w == "unset_basis_id":
         return {"op": "c18.unset_basis_id", "id": payload["id"]}
+    if w == "no_classical":
+        return {"op": "c18.no_classical", "nregs": 1 if payload["nregbits"] else 0, "nbits": payload["nregbits"] + payload["nloose"]}
     return {"op": "c18.basis", "arities": payload["arities"], "ncoeffs": payload["ncoeffs"]}
 
 
@@ -298,6 +308,28 @@ def run_real(kind, payload):
                 return {"error": "ValueError", "mutated": True}
             raise
         return {"ok": "accepted"}
+    if w == "no_classical":
+        from qiskit.circuit import QuantumCircuit, QuantumRegister, ClassicalRegister, Clbit
+        regs = [QuantumRegister(3, "q")] + ([ClassicalRegister(payload["nregbits"], "c")] if payload["nregbits"] else [])
+        qc = QuantumCircuit(*regs)
+        if payload["nloose"]:
+            qc.add_bits([Clbit() for _ in range(payload["nloose"])])
+        qc.h(0); qc.cx(0, 1); qc.cx(1, 2)
+        if payload["measure"] and qc.num_clbits:
+            qc.measure(2, qc.clbits[-1])
+        before = json.dumps(canon.snapshot(qc), sort_keys=True, default=str)
+        try:
+            if payload["fn"] == "cut_gates":
+                from qiskit_addon_cutting import cut_gates
+                cut_gates(qc, [1])
+            else:
+                from qiskit_addon_cutting import find_cuts, OptimizationParameters, DeviceConstraints
+                find_cuts(qc, OptimizationParameters(seed=1), DeviceConstraints(2))
+        except ValueError:
+            if json.dumps(canon.snapshot(qc), sort_keys=True, default=str) != before:
+                return {"error": "ValueError", "mutated": True}
+            raise
+        return {"ok": "accepted"}
     from qiskit_addon_cutting.qpd import QPDBasis
     from qiskit.circuit.library import XGate
     maps = [tuple([XGate()] for _ in range(a)) for a in payload["arities"]]
@@ -395,6 +427,8 @@ def _expected_invalid(kind, payload):
         return payload["basis_qubits"] != 2
     if w == "unset_basis_id":
         return payload["id"] is None
+    if w == "no_classical":
+        return payload["nregbits"] + payload["nloose"] > 0
     ar = payload["arities"]
     return (not ar) or ar[0] > 2 or any(a != ar[0] for a in ar) or payload["ncoeffs"] != len(ar)
 
